@@ -132,6 +132,10 @@ def gen_program(rng, pkg, n=None, p_explicit=0.15, p_hidden=0.12, min_memento=2,
             nd["tconst"] = [rng.randint(1, 9) for _ in range(rng.randint(2, 3))]
         if rng.random() < 0.5:
             nd["sconst"] = sorted(rng.sample(["alpha", "beta", "gamma", "delta", "eps", "zeta"], rng.randint(2, 4)))
+        if kind in ("memento", "plain") and (nd["const"] + i) % 3 == 0:  # (no random draw)
+            # a string constant that lives in a nested code object of the body: the filter or the element expression of a
+            # generator expression, a lambda
+            nd["gx"] = {"shape": ["filter", "elem", "lam"][(nd["const"] + 2 * i) % 3], "s": "alpha"}
         if kind == "wrapped" and shadow and i == 2 and split > 2:
             nd["wrap_param"] = "a"
         elif kind == "wrapped":
@@ -502,6 +506,11 @@ def render_def(prog, i, skip_names=()):
             if len(nd["sconst"]) in (2, 3, 4) else repr
         L.append("    if %s in {%s}:" % (wrap("alpha"), ", ".join(wrap(s_) for s_ in nd["sconst"])))
         L.append("        r += 1")
+    if nd.get("gx"):
+        g = nd["gx"]
+        L.append({"filter": "    r += sum(1 for s_ in ('alpha', 'beta', 'gamma') if s_ != %r)",
+                  "elem": "    r += sum(len(s_ + %r) for s_ in ('a', 'bb'))",
+                  "lam": "    r += len((lambda q_: q_ + %r)('z'))"}[g["shape"]] % g["s"])
     for rd in nd["reads"]:
         L.append("    r += %s" % read_expr(prog["vars"][rd["v"]], rd["form"]))
     for ci, c in enumerate(nd["calls"]):
@@ -620,6 +629,9 @@ def render_module(prog, mod, twin=False, order=None, skip=()):
         parts.append(render_def(prog, i, skip) + "\n")
     for al in prog["aliases"]:
         if al["mod"] == mod and prog["nodes"][al["target"]]["name"] not in skip:
+            if al.get("partial"):  # a module-level functools.partial object around the function (binds nothing)
+                parts.append("%s = functools.partial(%s)\n" % (al["name"], prog["nodes"][al["target"]]["name"]))
+                continue
             parts.append("%s = %s%s\n" % (al["name"], prog["nodes"][al["target"]]["name"],
                                           ".force_local()" if al.get("clone") else ""))  # (a module-level modifier clone)
     return "".join(parts)
@@ -871,7 +883,7 @@ def apply_special(rng, prog, kind):
 
 EDIT_KINDS = ["const", "xconst", "tconst", "tperm", "builtin", "sconst", "nested_const", "op", "swap", "add_param", "default", "kwdefault",
               "add_call", "remove_call", "retarget_call", "retarget_alias", "var_value", "var_mutate", "version_bump",
-              "hidden_target", "prev_const", "guard_move", "deco_arg", "swap_aliases"]
+              "hidden_target", "prev_const", "guard_move", "deco_arg", "swap_aliases", "gx_const"]
 
 
 def apply_edit(rng, prog, kind=None, force_var=None, force_node=None):
@@ -945,6 +957,12 @@ def apply_edit(rng, prog, kind=None, force_var=None, force_node=None):
                 if len(s) < 2:
                     s |= {"omega", "psi"}
                 nodes[i]["sconst"] = sorted(s)
+                return done(i)
+    if kind == "gx_const":  # the string constant inside a generator expression / lambda of the body
+        for i in cand:
+            if nodes[i].get("gx"):
+                g = nodes[i]["gx"]
+                g["s"] = ({"alpha": "omega"}.get(g["s"], "alpha")) if g["shape"] == "filter" else g["s"] + "x"
                 return done(i)
     if kind == "nested_const":
         for i in cand:
